@@ -140,8 +140,301 @@ fn nest(c: &mut Choices, mut s: Stmt, depth: usize, closure_id: &mut usize) -> (
     (s, hop)
 }
 
+// ---------------------------------------------------------------------------------------------
+// second family: faults under recursion, and the exhaustion / timeout faults
+// ---------------------------------------------------------------------------------------------
+
+#[derive(Debug, Clone, PartialEq)]
+enum RecFault {
+    /// one of the planted fault cards, raised in the activation at this depth
+    Planted(usize, usize),
+    /// reading a variable that was never set, at this depth
+    UnsetVar(usize),
+    /// unbounded recursion: the call stack or the value stack runs out
+    Exhaustion,
+    /// unbounded recursion under a small instruction budget
+    Timeout(u64),
+}
+
+#[derive(Debug, Clone)]
+struct RecPlan {
+    program: Program,
+    fault: RecFault,
+    /// number of plain functions between main and the recursive cycle
+    outer: usize,
+    /// functions in the recursive cycle (1 = direct recursion)
+    cycle: usize,
+    /// no parameters, no locals, no pending operands at the recursive call
+    bare: bool,
+}
+
+fn decode_rec(c: &mut Choices) -> RecPlan {
+    let outer = c.draw(3);
+    let cycle = 1 + c.draw(2);
+    let fault = match c.weighted(&[6, 2, 3, 3]) {
+        0 => {
+            let kind = *c.pick(&[0usize, 1, 2, 3, 4, 5, 6, 7, 10, 11, 12]);
+            RecFault::Planted(kind, 1 + c.draw(7))
+        }
+        1 => RecFault::UnsetVar(1 + c.draw(7)),
+        2 => RecFault::Exhaustion,
+        _ => RecFault::Timeout(20 + c.draw(600) as u64),
+    };
+    let bare = c.chance(110);
+    let depth_of_fault = match &fault {
+        RecFault::Planted(_, d) | RecFault::UnsetVar(d) => Some(*d),
+        _ => None,
+    };
+    let depth = || Expr::Var("depth".into());
+    let mut funcs: Vec<FuncDef> = vec![];
+    let total = 1 + outer + cycle;
+    let name_of = |i: usize| -> String {
+        if i == 0 {
+            "main".into()
+        } else if i <= outer {
+            format!("o{}", i)
+        } else {
+            format!("r{}", i - outer - 1)
+        }
+    };
+    let arities: Vec<usize> = (0..total).map(|i| if i == 0 || bare { 0 } else { c.draw(3) }).collect();
+    let mut call_to = |c: &mut Choices, callee: usize| -> Stmt {
+        let args: Vec<Expr> = (0..arities[callee]).map(|k| int(k as i64)).collect();
+        let spelled = name_of(callee);
+        let call = if c.bool() { Expr::Call(spelled, callee, args) } else { Expr::DynCall(Box::new(Expr::FuncRef(spelled, callee)), args) };
+        if bare {
+            // no operand is pending while the call runs
+            if c.bool() {
+                log_stmt(call)
+            } else {
+                Stmt::SetGlobal("g777".into(), call)
+            }
+        } else {
+            let d = c.draw(2);
+            let e = wrap_expr(c, call, d);
+            stmt_of(c, e, false)
+        }
+    };
+    for i in 0..total {
+        let params: Vec<String> = (0..arities[i]).map(|k| format!("p{}", k)).collect();
+        let mut body = vec![];
+        if i == 0 {
+            body.push(Stmt::SetGlobal("depth".into(), int(0)));
+            body.push(log_stmt(int(7770)));
+            body.push(call_to(c, 1));
+        } else if i <= outer {
+            body.push(log_stmt(int(7770 + i as i64)));
+            body.push(call_to(c, i + 1));
+        } else {
+            let j = i - outer - 1;
+            body.push(Stmt::SetGlobal("depth".into(), Expr::Bin(BinOp::Add, Box::new(depth()), Box::new(int(1)))));
+            if !bare && c.bool() {
+                body.push(Stmt::SetVar("l777".into(), int(1)));
+            }
+            if let Some(d) = depth_of_fault {
+                // the activation at depth d runs function (d-1) mod cycle: only that one holds the fault
+                if (d - 1) % cycle == j {
+                    let stmt = match &fault {
+                        RecFault::Planted(10, _) => Stmt::SetProp(int(1), int(MARK), Expr::Str("k".into())),
+                        RecFault::Planted(11, _) => Stmt::Append(int(1), int(MARK)),
+                        RecFault::Planted(12, _) => Stmt::ForEach { i: None, k: None, v: Some("fv".into()), iterable: int(MARK), body: Box::new(log_stmt(int(1))) },
+                        RecFault::Planted(k, _) => {
+                            let w = c.draw(2);
+                            let e = wrap_expr(c, fault_expr(*k).0, w);
+                            stmt_of(c, e, true)
+                        }
+                        _ => log_stmt(Expr::Var("unset777".into())),
+                    };
+                    body.push(Stmt::IfTrue(Expr::Bin(BinOp::LessOrEq, Box::new(int(d as i64)), Box::new(depth())), Box::new(stmt)));
+                }
+            }
+            body.push(call_to(c, outer + 1 + (j + 1) % cycle));
+        }
+        body.push(log_stmt(int(9)));
+        funcs.push(FuncDef { id: i, name: name_of(i), module: vec![], params, body });
+    }
+    let root = ModuleDef { name: String::new(), functions: (0..total).collect(), submodules: vec![], imports: vec![] };
+    RecPlan { program: Program { funcs, root, globals: vec!["sink_".into(), "g777".into(), "depth".into()] }, fault, outer, cycle, bare }
+}
+
+/// the card in function `caller` that calls the function named `target`
+fn site_in(cards: &[Found], module: &Module, caller: &str, target: &str) -> Result<Loc, String> {
+    let fidx = module.functions.iter().position(|(n, _)| n == caller).ok_or_else(|| format!("no function {}", caller))?;
+    let is_site = |c: &Card| match &c.body {
+        CardBody::Call(j) => j.function_name == target,
+        CardBody::DynamicCall(j) => matches!(&j.function.body, CardBody::Function(n) if n == target),
+        _ => false,
+    };
+    let sites: Vec<&Found> = cards.iter().filter(|f| f.loc.0.is_empty() && f.loc.1 == fidx && is_site(f.card)).collect();
+    if sites.len() != 1 {
+        return Err(format!("{} call sites of {} in {}", sites.len(), target, caller));
+    }
+    Ok(sites[0].loc.clone())
+}
+
+/// the call cards of the chain when `n` activations of the cycle are active, innermost first
+fn rec_chain(plan: &RecPlan, module: &Module, cards: &[Found], n: usize) -> Result<Vec<Loc>, String> {
+    let mut chain = vec![];
+    let r = |j: usize| format!("r{}", j % plan.cycle);
+    // activation i (1-based) runs r((i-1) mod cycle); activation 1 is created by the last outer function
+    for i in (2..=n).rev() {
+        chain.push(site_in(cards, module, &r(i - 2), &r(i - 1))?);
+    }
+    if n >= 1 {
+        let last_outer = if plan.outer == 0 { "main".to_string() } else { format!("o{}", plan.outer) };
+        chain.push(site_in(cards, module, &last_outer, "r0")?);
+    }
+    for i in (1..=plan.outer).rev() {
+        let caller = if i == 1 { "main".to_string() } else { format!("o{}", i - 1) };
+        chain.push(site_in(cards, module, &caller, &format!("o{}", i))?);
+    }
+    Ok(chain)
+}
+
+fn run_rec(plan: &RecPlan, fp: u64) -> CaseOut {
+    let module = lower(&plan.program);
+    let mut labels = vec!["recursion_family".to_string(), format!("cycle{}", plan.cycle)];
+    if plan.bare {
+        labels.push("rec_bare_frames".into());
+    }
+    let mk = |clause: &str, d: String| CaseOut {
+        verdict: Verdict::Fail(Failure::new(clause, &format!("c15:rec:{}", clause), d)),
+        nontrivial: false,
+        labels: vec![],
+        fingerprint: fp,
+        execs: 1,
+    };
+    let fmt = |l: &Loc| format!("{}#{}{:?}", l.0.join("."), l.1, l.2);
+    let mut cards = vec![];
+    all_cards(&module, &mut vec![], &mut cards);
+    let prog = match compile(module.clone(), None) {
+        Ok(p) => p,
+        Err(e) => return mk("compiles", format!("{}", e)),
+    };
+    let cfg = match &plan.fault {
+        RecFault::Timeout(b) => RunCfg { max_instr: *b, ..RunCfg::default() },
+        _ => RunCfg::default(),
+    };
+    let obs = run_vm(&prog, &plan.program.globals, &cfg);
+    let Err(kind) = &obs.outcome else { return mk("planted_error_raised", "the run succeeded".into()) };
+    let got: Vec<Loc> = obs.trace.iter().map(loc_of).collect();
+    if got.is_empty() {
+        return mk("trace_not_empty", "empty trace".into());
+    }
+    // activations of the cycle that had started when the run failed
+    let n = match obs.globals.get("depth") {
+        Some(crate::mval::MV::Int(d)) => *d as usize,
+        _ => 0,
+    };
+    let all = |v: &[Loc]| v.iter().map(fmt).collect::<Vec<_>>();
+    // (expected trace[0] if it is a single known card, candidates for the number of active activations)
+    let (first, depths): (Option<Loc>, Vec<usize>) = match &plan.fault {
+        RecFault::Planted(k, d) => {
+            let expect = match *k {
+                10 | 11 | 12 => "InvalidArgument",
+                k => fault_expr(k).1.unwrap_or("?"),
+            };
+            if kind != expect || n != *d {
+                return mk("planted_error_raised", format!("outcome {} at depth {}, planted {} at depth {}", kind, n, expect, d));
+            }
+            labels.push(format!("rec_depth{}", (*d).min(3)));
+            let faults: Vec<&Found> = cards.iter().filter(|f| is_fault_card(f.card)).collect();
+            if faults.len() != 1 {
+                return mk("harness_plan_consistent", format!("{} candidate fault cards", faults.len()));
+            }
+            (Some(faults[0].loc.clone()), vec![*d])
+        }
+        RecFault::UnsetVar(d) => {
+            if !kind.starts_with("VarNotFound") || n != *d {
+                return mk("planted_error_raised", format!("outcome {} at depth {}, planted VarNotFound at depth {}", kind, n, d));
+            }
+            labels.push("unset_variable".into());
+            labels.push(format!("rec_depth{}", (*d).min(3)));
+            let reads: Vec<&Found> = cards.iter().filter(|f| matches!(&f.card.body, CardBody::ReadVar(v) if v == "unset777")).collect();
+            if reads.len() != 1 {
+                return mk("harness_plan_consistent", format!("{} reads of the unset variable", reads.len()));
+            }
+            (Some(reads[0].loc.clone()), vec![*d])
+        }
+        RecFault::Timeout(_) if kind.ends_with("Timeout") => {
+            labels.push("timeout_in_recursion".into());
+            (None, vec![n, n + 1])
+        }
+        // (a stack can run out before a larger budget does)
+        RecFault::Exhaustion | RecFault::Timeout(_) => {
+            if kind.contains("CallStackOverflow") {
+                labels.push("call_stack_exhausted".into());
+                // the failing card is the call card that would have started activation n+1
+                let chain = match rec_chain(plan, &module, &cards, n + 1) {
+                    Ok(c) => c,
+                    Err(e) => return mk("harness_plan_consistent", e),
+                };
+                (Some(chain[0].clone()), vec![n])
+            } else if kind.contains("Stackoverflow") {
+                labels.push("value_stack_exhausted".into());
+                (None, vec![n, n + 1])
+            } else {
+                return mk("planted_error_raised", format!("unbounded recursion ended with {}", kind));
+            }
+        }
+    };
+    if let Some(f) = &first {
+        if got[0] != *f {
+            return mk("trace0_is_failing_card", format!("trace[0] {} expected {}; full trace {:?}", fmt(&got[0]), fmt(f), all(&got)));
+        }
+    }
+    if resolve(&module, &got[0]).is_none() {
+        return mk("trace0_resolves", format!("{} does not resolve", fmt(&got[0])));
+    }
+    let mut matched = false;
+    let mut wanted = vec![];
+    for d in &depths {
+        let chain = match rec_chain(plan, &module, &cards, *d) {
+            Ok(c) => c,
+            Err(e) => return mk("harness_plan_consistent", e),
+        };
+        let rest = &got[1..];
+        if (rest.len() == chain.len() || rest.len() == chain.len() + 1) && rest[..chain.len()] == chain[..] {
+            matched = true;
+        }
+        wanted.push(all(&chain));
+    }
+    if !matched {
+        return mk(
+            "trace_is_call_chain",
+            format!("{} with {} activations of the recursive cycle: trace {:?} expected [failing card] + {:?} (+ optional entry)", kind, n, all(&got), wanted),
+        );
+    }
+    for l in &got {
+        if resolve(&module, l).is_none() && l != got.last().unwrap() {
+            return mk("trace_entries_resolve", format!("{} does not resolve", fmt(l)));
+        }
+    }
+    if n >= 3 {
+        labels.push("rec_active>=3".into());
+    }
+    CaseOut { verdict: Verdict::Pass, nontrivial: n >= 2, labels, fingerprint: fp, execs: 1 }
+}
+
+enum CaseKind {
+    Chain(Plan),
+    Rec(RecPlan),
+}
+
+const REC_SHARE: u32 = 80;
+
+fn decode_case(bytes: &[u8]) -> CaseKind {
+    let mut c = Choices::new(bytes);
+    if c.chance(REC_SHARE) {
+        CaseKind::Rec(decode_rec(&mut c))
+    } else {
+        CaseKind::Chain(decode(bytes))
+    }
+}
+
 fn decode(bytes: &[u8]) -> Plan {
     let mut c = Choices::new(bytes);
+    let _family = c.chance(REC_SHARE);
     let chain_len = c.draw(5);
     let fault = c.draw(13);
     let wrap_depth = c.draw(3);
@@ -315,11 +608,11 @@ impl Property for C15 {
         "C15"
     }
     fn rule(&self) -> &'static str {
-        "case = error-free filler program (generated) around ONE planted fault card: 13 fault kinds (missing native, failing native, table op / pop / row with bad index / property on a non-table, calling a non-function, &str-typed native given an int, set-property / append / for-each on a non-table, and the compile-time faults unresolvable call target / function value), placed in a random operand slot of 0-2 wrapper cards, in a statement of 8 shapes, nested 0-3 times under if / else / repeat / while / composite / a closure invoked on the spot, in the last of 0-4 chained script functions (static and dynamic calls, some in a submodule), always followed by more code. Oracle: the error kind is the planted one, trace[0] equals the planted card's index computed with an independent child-numbering table AND resolves through Module::get_card to the planted CardId, trace[1..] equals the call cards of the chain innermost->outermost incl. closure invocations (one extra final entry accepted as program entry); compile faults: loc resolves to the planted card. non-trivial = chain length >= 1 or operand slot depth >= 1; distinct by hash of the decoded plan"
+        "case = error-free filler program (generated) around ONE planted fault card: 13 fault kinds (missing native, failing native, table op / pop / row with bad index / property on a non-table, calling a non-function, &str-typed native given an int, set-property / append / for-each on a non-table, and the compile-time faults unresolvable call target / function value), placed in a random operand slot of 0-2 wrapper cards, in a statement of 8 shapes, nested 0-3 times under if / else / repeat / while / composite / a closure invoked on the spot, in the last of 0-4 chained script functions (static and dynamic calls, some in a submodule), always followed by more code. Oracle: the error kind is the planted one, trace[0] equals the planted card's index computed with an independent child-numbering table AND resolves through Module::get_card to the planted CardId, trace[1..] equals the call cards of the chain innermost->outermost incl. closure invocations (one extra final entry accepted as program entry); compile faults: loc resolves to the planted card. Second family (about 30% of the cases): main -> 0-2 plain functions -> a recursive cycle of 1 or 2 functions (with or without parameters / locals / pending operands at the call), with (a) one of the planted fault cards or a read of a never-set variable raised in the activation at depth 1..7, (b) unbounded recursion until the call stack or the value stack is exhausted, (c) unbounded recursion under an instruction budget of 20..620; the number n of active activations is read from a counter global; oracle: error kind as planted, trace[0] is the planted card (a/ the failing call card for call-stack exhaustion; any resolvable card for value-stack exhaustion and timeout), trace[1..] is exactly the n (or, where the fault can fall between the call and the counter, n or n+1) recursive call cards followed by the outer chain. non-trivial = chain length >= 1 or operand slot depth >= 1 or >= 2 active recursive activations; distinct by hash of the decoded plan"
     }
     fn assumptions(&self) -> Vec<String> {
         vec![
-            "stack/call-stack/memory exhaustion, timeout and unset-variable faults are not planted in this check (their trace[0] is not a single planted card); chains through native re-entry are not generated".into(),
+            "memory exhaustion is not planted in this check; chains through native re-entry are not generated (a native that re-enters the interpreter reports the inner failure as its own, see C18)".into(),
             "one extra trailing trace entry is accepted as the program entry".into(),
         ]
     }
@@ -333,10 +626,17 @@ impl Property for C15 {
         true
     }
     fn describe(&self, bytes: &[u8]) -> J {
+        if let CaseKind::Rec(r) = decode_case(bytes) {
+            return json!({"family": "recursion", "fault": format!("{:?}", r.fault), "outer_chain": r.outer, "cycle": r.cycle, "bare_frames": r.bare, "program": program_json(&r.program)});
+        }
         let p = decode(bytes);
         json!({"fault_kind": p.fault, "expected_error": p.expect_kind, "chain_len": p.chain_len, "wrap_depth": p.wrap_depth, "nest_depth": p.nest_depth, "program": program_json(&p.program)})
     }
     fn run(&self, bytes: &[u8], _tier: Tier) -> CaseOut {
+        if let CaseKind::Rec(r) = decode_case(bytes) {
+            let fp = fnv64(format!("{:?}", r).as_bytes());
+            return run_rec(&r, fp);
+        }
         let plan = decode(bytes);
         let fp = fnv64(format!("{:?}", plan).as_bytes());
         let module = lower(&plan.program);
@@ -424,6 +724,6 @@ impl Property for C15 {
         CaseOut { verdict: Verdict::Pass, nontrivial, labels, fingerprint: fp, execs: 1 }
     }
     fn label_floors(&self) -> Vec<(&'static str, f64)> {
-        vec![("closure_hop", 0.05), ("chain4", 0.05), ("fault_in_submodule", 0.05), ("compile_fault", 0.05), ("wrap2", 0.1)]
+        vec![("rec_active>=3", 0.08), ("call_stack_exhausted", 0.01), ("timeout_in_recursion", 0.02), ("rec_bare_frames", 0.05), ("closure_hop", 0.04), ("chain4", 0.04), ("fault_in_submodule", 0.05), ("compile_fault", 0.05), ("wrap2", 0.1)]
     }
 }
